@@ -47,11 +47,17 @@ LATTICES = {
         "long": np.array([20.0]), "short": np.array([0.7])},
     2: {"none": None, "one": np.array([[1.0, 0.2]]), "one-neg": np.array([[-0.8, 0.3]]),
         "ortho": np.array([[1.0, 0.0], [0.0, 1.4]]), "skew": np.array([[1.0, 0.3], [0.5, 1.1]]),
-        "neg": np.array([[-1.0, 0.1], [0.2, -0.9]]), "long-short": np.array([[20.0, 0.0], [0.1, 0.7]])},
+        "neg": np.array([[-1.0, 0.1], [0.2, -0.9]]), "long-short": np.array([[20.0, 0.0], [0.1, 0.7]]),
+        # strongly skewed cells (plane spacing much smaller than the vector lengths) and the hexagonal cell: added after
+        # seeded change C11-E (a shortcut valid only while 2 r < smallest plane spacing, tested against vector lengths)
+        "strong-skew": np.array([[1.0, 0.0], [0.8, 0.6]]), "hexagonal": np.array([[1.0, 0.0], [0.5, 0.8660254037844386]]),
+        "sliver": np.array([[1.0, 0.0], [0.95, 0.3]])},
     3: {"none": None, "one": np.array([[0.2, 0.1, 1.1]]), "two": np.array([[1.0, 0.0, 0.0], [0.3, 1.2, 0.1]]),
         "ortho": np.diag([1.0, 1.3, 0.8]), "skew": np.array([[1.0, 0.2, 0.0], [0.3, 1.1, 0.1], [0.1, -0.4, 0.9]]),
         "neg": np.array([[-1.0, 0.0, 0.1], [0.2, 1.0, 0.0], [0.0, 0.3, -0.8]]),
-        "long-short": np.array([[20.0, 0.0, 0.0], [0.0, 0.7, 0.0], [0.2, 0.1, 1.0]])},
+        "long-short": np.array([[20.0, 0.0, 0.0], [0.0, 0.7, 0.0], [0.2, 0.1, 1.0]]),
+        "strong-skew": np.array([[1.0, 0.0, 0.0], [0.8, 0.6, 0.0], [0.7, 0.3, 0.5]]),
+        "two-skew": np.array([[1.0, 0.0, 0.2], [0.85, 0.5, 0.0]])},
 }
 POINTSETS = ("inside", "outside", "boundary")
 
@@ -150,6 +156,12 @@ def _case(arg):
     centres = [pr.mean(axis=0), pr[2].copy(), pr.mean(axis=0) + 1.7 * cell, pr.mean(axis=0) + np.array([37.3, -21.0, 11.0])[:dim],
                -pr.mean(axis=0) - 0.4]
     radii = [0.0, 0.35, 1.2 * cell, 2.7 * cell if cell < 3 else 3.5, 1e-3]
+    if rv is not None:
+        # radii placed relative to BOTH natural lengths of the cell: the smallest plane spacing and the shortest vector
+        vec = np.atleast_2d(rv).reshape(-1, dim)
+        smin = float(np.min(1.0 / np.linalg.norm(np.linalg.pinv(vec), axis=0)))
+        amin = float(np.min(np.linalg.norm(vec, axis=1)))
+        radii += [0.45 * smin, 0.55 * smin, 0.5 * (0.5 * smin + 0.5 * amin), 0.48 * amin, 0.52 * amin]
     for ci, c in enumerate(centres):
         cc = np.float64(c[0]) if dim == 1 else c
         for r in radii:
